@@ -660,6 +660,28 @@ M("C19", "eagain-not-mapped", "connectionpool.py",
   "        if hasattr(err, \"errno\") and err.errno in _blocking_errnos:\n            raise ReadTimeoutError(", "        if hasattr(err, \"errno\") and err.errno in _blocking_errnos and url:\n            raise ReadTimeoutError(", rule="C19-R7")
 
 
+# ---- C10-R6 on effect rows: the checked term is the appended term
+M("C10", "h2-name-check-dropped-for-bytes", "http2/connection.py",
+  "        if not _is_legal_header_name(header):\n",
+  "        if isinstance(header, str) and not _is_legal_header_name(header):\n", rule="C10-R6")
+M("C10", "h2-value-checked-before-encode-only-str", "http2/connection.py",
+  "            if _is_illegal_header_value(value):\n",
+  "            if len(values) == 1 and _is_illegal_header_value(value):\n", rule="C10-R6")
+M("C10", "h2-name-checked-then-stripped", "http2/connection.py",
+  "            self._headers.append((header, value))",
+  "            self._headers.append((header.strip(), value))", rule="C10-R6")
+MUTANTS.append(dict(prop="C10", name="benign-h2-validators-inlined", benign=True, rule=None, regex=False, edits=[
+    ("http2/connection.py", "        if not _is_legal_header_name(header):\n", "        if RE_IS_LEGAL_HEADER_NAME.match(header) is None:\n"),
+    ("http2/connection.py", "            if _is_illegal_header_value(value):\n", "            if RE_IS_ILLEGAL_HEADER_VALUE.search(value) is not None:\n"),
+]))
+MUTANTS.append(dict(prop="C10", name="benign-h2-renamed-locals-and-helper", benign=True, rule=None, regex=False, edits=[
+    ("http2/connection.py", "        header = header.encode() if isinstance(header, str) else header\n        header = header.lower()  # A lot of upstream code uses capitalized headers.\n        if not _is_legal_header_name(header):\n            raise ValueError(f\"Illegal header name {str(header)}\")\n",
+     "        name = self._wire_name(header)\n        if not _is_legal_header_name(name):\n            raise ValueError(f\"Illegal header name {str(name)}\")\n"),
+    ("http2/connection.py", "            self._headers.append((header, value))", "            self._headers.append((name, value))"),
+    ("http2/connection.py", "    def putheader(self, header: str | bytes, *values: str | bytes) -> None:  # type: ignore[override]\n",
+     "    @staticmethod\n    def _wire_name(header: str | bytes) -> bytes:\n        raw = header.encode() if isinstance(header, str) else header\n        return raw.lower()\n\n    def putheader(self, header: str | bytes, *values: str | bytes) -> None:  # type: ignore[override]\n"),
+]))
+
 # --------------------------------------------------------------------------- seeded changes written by independent sub-agents (see /verif/seeded/)
 def S(prop, name, rule=None):
     MUTANTS.append(dict(prop=prop, name="seed:" + name, patch=f"seeded/{prop}-{name}/patch.diff", rule=rule, benign=False))
